@@ -116,3 +116,81 @@ def _run_graph_read(kf):
         if obs["outcome"] != "ok" or obs["edges"] != w["expected_edges"]:
             bad = True
     return bad
+
+
+# ---- multiplier structure (mirror of CGGraph!UnitOf, used only to delimit known findings) ----
+def unit_of(ts, i):
+    """(start, stop) of the unit of the multiplier at index i (0-based), or None."""
+    has_sep = i >= 2 and ts[i - 1]["k"] == "B" and ts[i - 2]["k"] == ")"
+    j = i - 2 if has_sep else i - 1
+    if j < 0:
+        return None
+    if ts[j]["k"] == "N" and not has_sep:
+        return (j, j)
+    if ts[j]["k"] == ")":
+        depth, p = 0, j
+        while p >= 0:
+            if ts[p]["k"] == ")":
+                depth += 1
+            elif ts[p]["k"] == "(":
+                depth -= 1
+                if depth == 0:
+                    break
+            p -= 1
+        if p >= 1 and ts[p - 1]["k"] == "N":
+            return (p - 1, j)
+        if p >= 2 and ts[p - 1]["k"] == "B" and ts[p - 2]["k"] == "N":
+            return (p - 2, j)
+    return None
+
+
+def mult_features(ts):
+    f = set()
+    for i, t in enumerate(ts):
+        if t["k"] != "M":
+            continue
+        u = unit_of(ts, i)
+        if u is None or u[0] == u[1]:
+            continue
+        inner = ts[u[0]:u[1] + 1]
+        p = next(k for k in range(u[0], u[1] + 1) if ts[k]["k"] == "(")
+        for k, x in enumerate(inner):
+            if x["k"] == "M":
+                uu = unit_of(inner, k)
+                if uu is not None and uu[0] != uu[1]:
+                    f.add("mult_branch_in_mult_branch")
+        if p + 2 <= u[1] and (ts[p + 2]["k"] == "(" or
+                              (ts[p + 2]["k"] == "B" and p + 3 <= u[1] and ts[p + 3]["k"] == "(")):
+            f.add("nested_branch_on_first_of_mult_branch")
+        if ts[u[1] - 1]["k"] == ")":
+            f.add("double_close_before_mult")
+    return f
+
+
+@scope("graph.double_close_before_mult")
+def _dcbm(record):
+    return "double_close_before_mult" in mult_features(_toks(record))
+
+
+@scope("graph.nested_branch_on_first_of_mult_branch")
+def _nbfm(record):
+    return "nested_branch_on_first_of_mult_branch" in mult_features(_toks(record))
+
+
+@scope("graph.mult_branch_in_mult_branch")
+def _mbmb(record):
+    return "mult_branch_in_mult_branch" in mult_features(_toks(record))
+
+
+@witness_runner("graph.mult")
+def _run_graph_mult(kf):
+    """True while shorthand and longhand still read to different graphs (or the shorthand raises)."""
+    from . import project
+    from .props.graph import iso_witness
+    bad = False
+    for w in kf["witness"]:
+        a, _ = project.run_read(w["text"])
+        b, _ = project.run_read(w["longhand"])
+        if a["outcome"] != "ok" or b["outcome"] != "ok" or not iso_witness(a, b):
+            bad = True
+    return bad
